@@ -512,7 +512,7 @@ fn main() {
     }
 
     let kinds: Vec<String> = assets::KINDS.iter().map(|k| k.to_string()).collect();
-    let n: u32 = run.scale(150, 2500);
+    let n: u32 = run.scale(1500, 6000);
     std::thread::scope(|sc| {
         for k in &kinds {
             let run = &run;
